@@ -101,3 +101,134 @@ def local_swap_ok(colors0, adj):
                 fixed=[v]+[x for x in nb if x not in (u,w)]
                 if not swap_auto_exists(colors0,adj,u,w,fixed): bad.append((v,u,w))
     return bad
+
+
+# ---------------------------------------------------------------------------------------------------
+# C01 claimed-domain predicates (DESIGN 2/C01), all computed on the stereo-stripped constitution graph
+
+def constitution(m):
+    col = {n: (a.atomic_number, a.isotope or 0, a.charge, a.is_radical, a.implicit_hydrogens) for n, a in m.atoms()}
+    adj = {n: {k: b.order for k, b in nb.items()} for n, nb in m._bonds.items()}
+    return col, adj
+
+
+def labelled_centres(m):
+    """(kind, centre atoms, [substituent lists per end]) for every labelled stereo element"""
+    out = []
+    for n, env in m.stereogenic_tetrahedrons.items():
+        if m.atom(n).stereo is not None:
+            out.append(('t', n, [list(m._bonds[n])], m.atom(n).implicit_hydrogens or 0))
+    for path, env in m.stereogenic_cumulenes.items():
+        n, k = path[0], path[-1]
+        if len(path) % 2:
+            lab = m.atom(path[len(path) // 2]).stereo is not None
+        else:
+            i = len(path) // 2
+            lab = m.bond(path[i - 1], path[i]).stereo is not None
+        if lab:
+            out.append(('c', (n, k), [[x for x in m._bonds[n] if x != path[1]], [x for x in m._bonds[k] if x != path[-2]]],
+                        0))
+    return out
+
+
+def gap_a(m, orb):
+    """a labelled centre has two substituents in one constitutional orbit"""
+    for kind, c, ends, h in labelled_centres(m):
+        for subs in ends:
+            o = [orb[x] for x in subs]
+            if len(set(o)) < len(o):
+                return True
+    return False
+
+
+def _ring_blocks(adj):
+    """biconnected components (as edge sets) that contain a cycle"""
+    import sys
+    sys.setrecursionlimit(10000)
+    idx, low, stack, blocks = {}, {}, [], []
+    counter = [0]
+
+    def dfs(v, parent):
+        idx[v] = low[v] = counter[0]
+        counter[0] += 1
+        for w in adj[v]:
+            if w == parent:
+                continue
+            if w not in idx:
+                stack.append((v, w))
+                dfs(w, v)
+                low[v] = min(low[v], low[w])
+                if low[w] >= idx[v]:
+                    comp = []
+                    while True:
+                        e = stack.pop()
+                        comp.append(e)
+                        if e == (v, w):
+                            break
+                    if len(comp) > 1:
+                        blocks.append(comp)
+            elif idx[w] < idx[v]:
+                stack.append((v, w))
+                low[v] = min(low[v], idx[w])
+    for v in adj:
+        if v not in idx:
+            dfs(v, None)
+    return blocks
+
+
+def gap_b(m, orb):
+    """ring block with cyclomatic number >= 3 in which two atoms with >= 3 ring bonds inside the block share an orbit"""
+    adj = {n: {k for k, b in nb.items() if b.order != 8} for n, nb in m._bonds.items()}
+    for comp in _ring_blocks(adj):
+        nodes = {x for e in comp for x in e}
+        if len(comp) - len(nodes) + 1 < 3:
+            continue
+        deg = {n: 0 for n in nodes}
+        for a, b in comp:
+            deg[a] += 1
+            deg[b] += 1
+        hubs = [orb[n] for n, d in deg.items() if d >= 3]
+        if len(set(hubs)) < len(hubs):
+            return True
+    return False
+
+
+def gap_c(m):
+    """local swap test fails somewhere (routes to the known canonicaliser defect F-C01)"""
+    col, adj = constitution(m)
+    return bool(local_swap_ok(col, adj))
+
+
+def annulene_stereo(m, max_len=30):
+    """a labelled double bond lies on a fully conjugated (alternating double/single) cycle of >= 8 atoms:
+    routes to the known writer/reader defect for ring cis/trans marks (F-C01-3)"""
+    # an aromatic bond may stand for either member of the alternation
+    dbl = {n: [k for k, b in nb.items() if b.order in (2, 4)] for n, nb in m._bonds.items()}
+    sgl = {n: [k for k, b in nb.items() if b.order in (1, 4)] for n, nb in m._bonds.items()}
+    for i, j, b in m.bonds():
+        if b.order != 2 or b.stereo is None:
+            continue
+        # path i=j-...: next must be single, then double, ... back to i through a single bond
+        stack = [(j, (i, j), 1)]  # (current, path, next bond type: 1 single / 2 double)
+        while stack:
+            cur, path, t = stack.pop()
+            if len(path) > max_len:
+                continue
+            for k in (sgl if t == 1 else dbl)[cur]:
+                if k == i and t == 1 and len(path) >= 8:
+                    return True
+                if k in path:
+                    continue
+                stack.append((k, path + (k,), 3 - t))
+    return False
+
+
+def odd_label_orbit(m, orb):
+    """>= 3 (odd number of) labelled stereo elements in one constitutional orbit: the canonicaliser only
+    differentiates even groups (`if not len(group) % 2` in MoleculeStereo.__differentiation) - known defect F-C01-4"""
+    from collections import Counter
+    c = Counter()
+    for kind, centre, ends, h in labelled_centres(m):
+        key = (kind, orb[centre]) if kind == 't' else (kind, frozenset((orb[centre[0]], orb[centre[1]])))
+        c[key] += 1
+    return any(v >= 3 and v % 2 for v in c.values())
